@@ -96,6 +96,9 @@ func (t *TS) LinkRemove(p *agent.Agent, l *agent.Agent, upd bool) {
 	delete(t.Links, [2]int{idOf(p), idOf(l)})
 	l.Active = false
 	l.Reason = "Disconnected"
+	if l.Pivots.Parent == p { // as cmd/server LinkRemove: the link is gone in both directions
+		l.Pivots.Parent = nil
+	}
 	if upd {
 		for i := range p.Pivots.Links {
 			if p.Pivots.Links[i].NameID == l.NameID {
